@@ -601,8 +601,8 @@ def check_dtypes(ctx, subject, tf, xs, rs, xint, rint, documented_int, kind_note
       ``documented_int``: integer point arrays are the documented use (b-scaled maps, Identity, Hyperbolic on 0..n-1):
       an exception there is a violation.  For the other maps an integer array is an accidental input class: a LOUD
       ValueError/TypeError is counted as ``rejected`` and observed, a silently different value is still a violation.
-    * float32 arrays (mid part of the sample): |f32 - f64| <= eps32 x (1e5 x scale + 100 x measured sensitivity to the
-      argument + 100 x measured size of internally cancelling terms); points whose tolerance exceeds 5 % of the scale are undecided; a mismatch coinciding with a float32
+    * float32 arrays (mid part of the sample): |f32 - f64| <= eps32 x (1e5 x scale + 300 x measured sensitivity to the
+      argument + 300 x measured size of internally cancelling terms); points whose tolerance exceeds 5 % of the scale are undecided; a mismatch coinciding with a float32
       overflow/underflow flag is counted, not decided.  A dtype-dependent code path gives O(1) differences.
     """
     worst, wname = 0.0, None
@@ -676,7 +676,7 @@ def check_dtypes(ctx, subject, tf, xs, rs, xint, rint, documented_int, kind_note
                 # internal cancellation (1 - exp(-t), 3 d2^2 - d1 d3 == 0): size of the cancelling terms measured from the
                 # float64 rounding error of the same code against its long-double run, largest over this part of the sample
                 cabs = _noise_max(fn, a64, v64) / np.finfo(float).eps
-                tol = EPS32 * (TOL_F32 * scale + 100 * kappa + 100 * cabs)
+                tol = EPS32 * (TOL_F32 * scale + 300 * kappa + 300 * cabs)
                 dec = np.isfinite(tol) & (tol <= 0.05 * scale) & np.isfinite(v64)
                 dev = np.where(dec, np.abs(v32 - v64) / (tol + 1e-300), 0.0)
                 dev[dec & ((v32 == v64) | (np.isnan(v32) & np.isnan(v64)))] = 0.0
